@@ -228,6 +228,13 @@ fn fam_reject() -> Report {
             ("Some(1) |> >>> { x } <<<", "a block directly after `>>>`"),
             ("Some(Some(1)) => >>> (oops) |> f <<<, Some(2) |> g, map => |a, b| a", "an operand directly after `>>>`, more branches and a handler behind it"),
             ("Some(1) |> >>> |> f ~", "`~` with nothing behind it inside a wrapper"),
+            // tokens directly after an operator that takes NO operand (a forgotten `,` / a stray operand)
+            ("it ^^> |v| v", "an operand directly after `^^>`"),
+            ("it |n> |(i, v)| v", "an operand directly after `|n>`"),
+            ("Some(Some(1)) => >>> |> f <<< Some(2)", "an operand directly after `<<<`"),
+            ("a ^^> Some(1) |> g", "a second branch without `,` after `^^>`"),
+            ("a ^^> b, Some(1) |> g", "an operand directly after `^^>`, another branch behind it"),
+            ("a |> f ~^^> b", "an operand directly after `~^^>`"),
             ("let (a, b) = Some(1) |> f", "non-identifier `let` pattern (tuple)"),
             ("let Some(a) = Some(1) |> f", "non-identifier `let` pattern (tuple struct)"),
             ("let _ = Some(1) |> f", "non-identifier `let` pattern (wildcard)"),
